@@ -240,6 +240,53 @@ def run(ctx):
                             ctx.spec_fail('%s|policy=%s|%s' % (wname, pol, 'via-config' if via_config else 'argument'),
                                           '%s under failonerror=%r (%s) does not deliver what the policy prescribes' % (wname, pol, 'petl.config' if via_config else 'argument'),
                                           {'op': wname, 'table': repr(T), 'policy': repr(pol), 'via_config': via_config, 'errorvalue': repr(ev), 'real': real, 'want': want})
+        # ---- what counts as a failure is an exception RAISED by the converter or mapper — whatever its class — and nothing else
+        class Odd(Exception):
+            pass
+        for ci in range(40 if ctx.thorough() else 10):
+            T = [['a', 'b']] + [[rng.choice([1, 2, 3]), rng.choice(['x', 'y'])] for _ in range(rng.choice([1, 2, 3, 4]))]
+            bad = rng.choice([1, 2, 3])
+            exc_obj = ValueError('a value, not a failure')
+            for pol in (False, True, 'inline'):
+                # (a) a converter that RETURNS an exception object has not failed: same cells under every policy
+                for wname, call in (('convert(returns an exception object)', lambda: etl.convert(T, 'a', lambda v: exc_obj if v == bad else v, failonerror=pol, errorvalue='E')),
+                                    ('convertall(returns an exception object)', lambda: etl.convertall(T, lambda v: exc_obj if v == bad else v, failonerror=pol, errorvalue='E')),
+                                    ('convert(dict with exception values)', lambda: etl.convert(T, 'a', {bad: exc_obj}, failonerror=pol, errorvalue='E')),
+                                    ('fieldmap(returns an exception object)', lambda: etl.fieldmap(T, OrderedDict([('a', ('a', lambda v: exc_obj if v == bad else v)), ('b', 'b')]), failonerror=pol, errorvalue='E'))):
+                    rows, err = util.collect(call())
+                    want = [('a', 'b')] + [tuple((exc_obj if (c == bad and (j == 0 or wname.startswith('convertall'))) else c) for j, c in enumerate(r)) for r in T[1:]]
+                    ctx.case((wname, repr(T), bad, repr(pol)))
+                    ctx.count('returned-exception')
+                    if err is not None or [tuple(r) for r in rows] != want:
+                        ctx.spec_fail('%s|policy=%s' % (wname.split('(')[0] + '|returned-exception', pol),
+                                      '%s: a cell that did not fail is not delivered unchanged under failonerror=%r' % (wname, pol),
+                                      {'op': wname, 'table': repr(T), 'policy': repr(pol), 'returned for': bad, 'rows': repr(rows), 'error': err})
+                # (b) exception classes a generator-based implementation is tempted to treat specially
+                for exc in (StopIteration, GeneratorExit if False else Odd, LookupError, ArithmeticError):
+                    def failing(v, exc=exc):
+                        if (v[0] if isinstance(v, tuple) else v) == bad:
+                            raise exc('boom')
+                        return v
+                    for wname, call in (('convert', lambda: etl.convert(T, 'a', failing, failonerror=pol, errorvalue='E')),
+                                        ('rowmap', lambda: etl.rowmap(T, failing, header=['a', 'b'], failonerror=pol)),
+                                        ('rowmapmany', lambda: etl.rowmapmany(T, lambda r: [failing(r)], header=['a', 'b'], failonerror=pol)),
+                                        ('fieldmap', lambda: etl.fieldmap(T, OrderedDict([('a', ('a', failing)), ('b', 'b')]), failonerror=pol, errorvalue='E'))):
+                        rows, err = util.collect(call())
+                        first_bad = next((i for i, r in enumerate(T[1:]) if r[0] == bad), None)
+                        ctx.case((wname, exc.__name__, repr(T), bad, repr(pol)))
+                        ctx.count('exception-class:' + exc.__name__)
+                        if first_bad is None:
+                            ok = err is None and len(rows) == len(T)
+                        elif pol is True:
+                            ok = err is not None and len(rows) == 1 + first_bad       # the rows before it, then an exception
+                        else:
+                            ok = err is None and (len(rows) == len(T) if (pol == 'inline' or wname in ('convert', 'fieldmap')) else
+                                                  len(rows) == len(T) - sum(1 for r in T[1:] if r[0] == bad))
+                        if not ok:
+                            ctx.spec_fail('%s|policy=%s|exception-class' % (wname, pol),
+                                          '%s under failonerror=%r with a function raising %s: not (rows before the failure, then an exception) / (every row accounted for)'
+                                          % (wname, pol, exc.__name__),
+                                          {'op': wname, 'table': repr(T), 'policy': repr(pol), 'raises': exc.__name__, 'fails on': bad, 'rows': repr(rows), 'error': err})
     finally:
         config.failonerror = saved
     ctx.exhaustive = True
